@@ -102,6 +102,8 @@ pub fn run_bisync(
     // same content into a delete of the new file.
     common.retain(|p, _| a.contains_key(p) || b.contains_key(p));
     let mut conflict_paths: Vec<PathBuf> = Vec::new();
+    let planned: std::collections::BTreeMap<&Path, Action> =
+        plan.iter().map(|(p, act)| (p.as_path(), *act)).collect();
     for (path, act) in &plan {
         apply(
             root_a,
@@ -111,6 +113,7 @@ pub fn run_bisync(
             &a,
             &b,
             &host,
+            &planned,
             &mut common,
             &mut conflict_paths,
         )?;
@@ -153,6 +156,7 @@ fn apply(
     a: &FpMap,
     b: &FpMap,
     host: &str,
+    planned: &std::collections::BTreeMap<&Path, Action>,
     common: &mut FpMap,
     conflicts: &mut Vec<PathBuf>,
 ) -> std::io::Result<()> {
@@ -214,9 +218,40 @@ fn apply(
                 (root_b, fb, root_a, fa)
             };
             let loser_name = {
-                let mut n = rel.as_os_str().to_owned();
-                n.push(format!(".conflict-{host}-{}", short_hex(&lose_fp.blake3)));
-                PathBuf::from(n)
+                let mut base = rel.as_os_str().to_owned();
+                base.push(format!(".conflict-{host}-{}", short_hex(&lose_fp.blake3)));
+                // Never land the conflict-copy on a name that is in use: a file with OTHER
+                // content there (e.g. an edited earlier conflict-copy) would be overwritten on
+                // both sides, and a name whose own action in this plan deletes or replaces it
+                // (decided from the scan taken before this copy) would lose the fresh copy.
+                // A pending propagate of the SAME content (a copy left by an interrupted run)
+                // is harmless. Otherwise fall back to a numbered variant of the name.
+                let in_use = |n: &Path| {
+                    let other_content = [a, b].iter().any(|m| {
+                        m.get(n).is_some_and(|fp| {
+                            fp.blake3 != lose_fp.blake3 || fp.ftype != lose_fp.ftype
+                        })
+                    });
+                    let harmful_action = planned.get(n).is_some_and(|act| {
+                        !matches!(
+                            act,
+                            Action::PropagateAtoB
+                                | Action::PropagateBtoA
+                                | Action::ConvergeIdentical
+                                | Action::Noop
+                        )
+                    });
+                    other_content || harmful_action
+                };
+                let mut name = PathBuf::from(&base);
+                let mut k = 1u32;
+                while in_use(&name) {
+                    k += 1;
+                    let mut n = base.clone();
+                    n.push(format!("-{k}"));
+                    name = PathBuf::from(n);
+                }
+                name
             };
             let win_full = win_root.join(rel); // winner content
             let lose_full = lose_root.join(rel); // loser content (about to be overwritten)
